@@ -409,7 +409,7 @@ func baseToNumber(L *LState) int {
 	case LNumber:
 		L.Push(lv)
 	case LString:
-		str := strings.Trim(string(lv), " \n\t")
+		str := strings.Trim(string(lv), " \n\t\v\f\r")
 		if strings.Index(str, ".") > -1 {
 			if v, err := strconv.ParseFloat(str, LNumberBit); err != nil {
 				L.Push(LNil)
